@@ -266,7 +266,9 @@ Definition model_ok (c : case) : bool :=
 Definition prop_ok (c : case) : bool :=
   match c with
   | Hist _ lawful cl0 steps => if lawful then hist_prop cl0 [] steps else true
-  | HDelta _ prev updated full removed _ => hdelta_ok prev updated full removed
+  | HDelta _ prev updated full removed used =>
+    (* a fallback to full generation must be the full state (pushDeltaXds then removes watched - generated) *)
+    if used then hdelta_ok prev updated full removed else map_eqb updated full
   | Pair _ t dmap smap =>
     match t with
     | ECDS => map_eqb (restrict dmap (rnames smap)) smap    (* never-remove: delta holds at least the SotW set *)
